@@ -1096,8 +1096,9 @@ theorem spec_decodes (zd : Bytes) (zp : Nat) (t : Bytes) (hzl : zd.length ≤ 15
       simp [encChunks, sizeLine]
     have h15 : ¬ zd.length > 15 := by omega
     have hhb := Spec.Http.head_not_blank_padded zd zp 0 hz0
+    have hnt := Spec.Http.no_tab_padded zd zp 0 hz0
     rw [hs]
-    simp only [Spec.Http.chunksAux, hl, hhb, Bool.false_eq_true, htrim, h15, if_false, hz0]
+    simp only [Spec.Http.chunksAux, hl, hhb, hnt, Bool.false_eq_true, htrim, h15, if_false, hz0]
     simp [bodyOf]
   | k :: cs, fuel + 1, acc, hcs, hf => by
     obtain ⟨hl15, hh, hdne⟩ := hcs k (by simp)
@@ -1133,8 +1134,9 @@ theorem spec_decodes (zd : Bytes) (zp : Nat) (t : Bytes) (hzl : zd.length ≤ 15
       rw [← hn]; simp
     have ih := spec_decodes zd zp t hzl hz0 cs fuel (acc ++ k.data) hcs' (by simp at hf; omega)
     have hhb := Spec.Http.head_not_blank_padded k.digits k.pad _ hh
+    have hnt := Spec.Http.no_tab_padded k.digits k.pad _ hh
     rw [hs]
-    simp only [Spec.Http.chunksAux, hline, hhb, Bool.false_eq_true, htrim, h15, if_false, hh, hn, h1, h2, h3, h4]
+    simp only [Spec.Http.chunksAux, hline, hhb, hnt, Bool.false_eq_true, htrim, h15, if_false, hh, hn, h1, h2, h3, h4]
     simp [ih, bodyOf]
 
 /-- as `Spec.Http.decodeOne` calls it: the strict decoder reads `m.body` and stops before the trailer -/
